@@ -3,7 +3,7 @@ each fix-up function is shown to re-establish the red-black / AVL invariant from
 heap the invariant admits)."""
 from plint import symx
 from plint.symx import C
-from plint.ir import line
+from plint.ir import line, strip_casts, cv, show
 from plint.units import AnalysisBroken
 from plint import shape, treeshape
 from rules.treecommon import TreeRun, variant_roles, field_writers, fixup_functions, tree_view
@@ -230,6 +230,24 @@ def run(prog, rep):
                "balance_factor is declared %s (%s): %s, so a stored -1 reads back as a positive value, every `== -1` test of the retracing code fails and right-heavy nodes are never rotated" % (
                    f_.get("ts"), t_.get("s"), "plain char is unsigned on ARM, PowerPC and s390 (and with -funsigned-char)" if plain_char else "the type is not a signed integer"),
                au.fn("p_tree_avl_insert", raw=True).loc[0])
+    # outside the fix-ups a balance factor is only ever set to 0: a fresh node is balanced, and the only child that takes the place of a
+    # removed AVL node is a leaf (factor 0) - copying the removed node's factor onto it leaves a leaf that claims a subtree, which the
+    # next insert below it believes (its retrace stops early, ancestors never learn the subtree grew)
+    from rules.treecommon import balancing_closure
+    clo = balancing_closure(au)
+    for f_ in sorted(au.functions.values(), key=lambda f: f.loc[0]):
+        if f_.name in clo:
+            continue
+        sts = [n for (b, i, n) in f_.nodes(elsewhere=True) if (n["k"] == "asg" and strip_casts(n["l"]) is not None and strip_casts(n["l"])["k"] == "member"
+                                                                and strip_casts(n["l"])["field"] == "balance_factor")
+               or (n["k"] == "un" and ("++" in n.get("op", "") or "--" in n.get("op", "")) and strip_casts(n["e"]) is not None and strip_casts(n["e"])["k"] == "member"
+                   and strip_casts(n["e"])["field"] == "balance_factor")]
+        if not sts:
+            continue
+        badf = [n for n in sts if not (n["k"] == "asg" and n["op"] == "=" and cv(n["r"]) == 0)]
+        rep.ob("C13.4", f_, "factor-stores", not badf, "outside the retracing helpers %s sets a balance factor only to 0 (%d store(s))" % (f_.name, len(sts)) if not badf else
+               "line %d: %s stores %s into a balance factor outside the retracing helpers: a node that is new, or a leaf moved into a removed node's place, has factor 0; "
+               "a stale factor makes a later retrace stop early and the tree loses its height bound" % (line(badf[0]), f_.name, show(badf[0].get("r")) if badf[0]["k"] == "asg" else "an increment"), badf[0] if badf else f_.loc[0])
     rep.floor("C13.4", 5)
 
 
@@ -264,6 +282,10 @@ SELFTEST = [
     dict(id="avl-replace-runs-retrace", file="src/ptree-avl.c", expect="C13.4",
          old="\t\t(*cur_node)->key   = key;\n\t\t(*cur_node)->value = value;\n\n\t\treturn FALSE;",
          new="\t\t(*cur_node)->key   = key;\n\t\t(*cur_node)->value = value;\n\n\t\tpp_tree_avl_balance_insert (((PTreeAVLNode *) *cur_node), root_node);\n\n\t\treturn FALSE;"),
+    dict(id="avl-transplanted-child-keeps-factor", file="src/ptree-avl.c", expect="C13.4",
+         old="\t\t((PTreeAVLNode *) child_node)->parent = child_parent;\n", new="\t\t((PTreeAVLNode *) child_node)->parent = child_parent;\n\t\t((PTreeAVLNode *) child_node)->balance_factor = ((PTreeAVLNode *) cur_node)->balance_factor;\n"),
+    dict(id="avl-transplanted-child-factor-zero-neutral", file="src/ptree-avl.c", expect=None,
+         old="\t\t((PTreeAVLNode *) child_node)->parent = child_parent;\n", new="\t\t((PTreeAVLNode *) child_node)->parent = child_parent;\n\t\t((PTreeAVLNode *) child_node)->balance_factor = 0;\n"),
     dict(id="avl-factor-plain-char", file="src/ptree-avl.c", expect="C13.4",
          old="\tpint\t\t\tbalance_factor;", new="\tpchar\t\t\tbalance_factor;"),
     dict(id="avl-factor-unsigned", file="src/ptree-avl.c", expect="C13.4",
